@@ -401,13 +401,14 @@ impl Pool {
         // allocator requests of the crate outside its buffer allocator (a panic's own machinery allocates: not counted)
         let extra = crate::gate::take_extra();
         res.x_a = if out.is_ok() { extra } else { 0 };
-        // bytes of a guard zone / a freed block / never-written memory inside a handle's own 16 bytes: something was read
-        // from outside the text of a live block (an over-read leaves no other trace)
+        // bytes of a guard zone or of a freed block inside a handle's own 16 bytes: something was read from outside a live
+        // block (an over-read leaves no other trace). Never-written bytes of a block's own spare capacity are NOT a finding:
+        // they lie inside the buffer the handle owns (benign b13 moves them into the padding).
         for (i, s) in self.ls.iter().enumerate() {
             if let Some(s) = s {
                 let raw = s.__verif_raw();
-                if raw[15] < 0xD0 && raw[..15].iter().any(|b| [shim::CANARY, shim::UNINIT, shim::POISON].contains(b)) {
-                    res_shim_extra.push(format!("out-of-bounds:handle {} holds guard / freed / unwritten bytes {:02x?}", i + 1, &raw[..]));
+                if raw[15] < 0xD0 && raw[..15].iter().any(|b| [shim::CANARY, shim::POISON].contains(b)) {
+                    res_shim_extra.push(format!("out-of-bounds:handle {} holds guard / freed bytes {:02x?}", i + 1, &raw[..]));
                 }
             }
         }
